@@ -882,3 +882,189 @@ func (p *Program) preludeFor(pkg string) string {
 	}
 	return p.prelude
 }
+
+// readFields collects the names of the fields of the struct pointed to by parameter `param` that the
+// call tree of fn may read or write, following the pointer through static calls, phis and closures'
+// bindings.  ok=false if the pointer escapes the analysis (stored, converted, passed to unknown code,
+// or the whole struct is copied).
+func (p *Program) readFields(fn *ssa.Function, param string) (map[string]bool, string) {
+	fields := map[string]bool{}
+	type key struct {
+		fn  *ssa.Function
+		idx int
+	}
+	seen := map[key]bool{}
+	var problem string
+	var follow func(f *ssa.Function, v ssa.Value, visited map[ssa.Value]bool)
+	follow = func(f *ssa.Function, v ssa.Value, visited map[ssa.Value]bool) {
+		if visited[v] || problem != "" {
+			return
+		}
+		visited[v] = true
+		refs := v.Referrers()
+		if refs == nil {
+			return
+		}
+		for _, in := range *refs {
+			switch i := in.(type) {
+			case *ssa.FieldAddr:
+				st := i.X.Type().Underlying().(*types.Pointer).Elem().Underlying().(*types.Struct)
+				fields[st.Field(i.Field).Name()] = true
+			case *ssa.DebugRef:
+			case *ssa.Phi:
+				follow(f, i, visited)
+			case *ssa.UnOp:
+				problem = "the whole struct is copied in " + f.String()
+			case ssa.CallInstruction:
+				cc := i.Common()
+				callee := cc.StaticCallee()
+				if callee == nil || len(callee.Blocks) == 0 {
+					problem = "the pointer is passed to code without a body (" + cc.String() + ") in " + f.String()
+					return
+				}
+				for k, a := range cc.Args {
+					if a == v {
+						kk := key{callee, k}
+						if seen[kk] {
+							continue
+						}
+						seen[kk] = true
+						if k < len(callee.Params) {
+							follow(callee, callee.Params[k], map[ssa.Value]bool{})
+						}
+					}
+				}
+			case *ssa.BinOp:
+				// comparison with nil
+			case *ssa.MakeClosure:
+				for k, b := range i.Bindings {
+					if b == v {
+						cf := i.Fn.(*ssa.Function)
+						follow(cf, cf.FreeVars[k], map[ssa.Value]bool{})
+					}
+				}
+			default:
+				problem = fmt.Sprintf("the pointer escapes through %T in %s", in, f.String())
+			}
+		}
+	}
+	for _, prm := range fn.Params {
+		if prm.Name() == param {
+			follow(fn, prm, map[ssa.Value]bool{})
+			return fields, problem
+		}
+	}
+	return fields, "no parameter " + param
+}
+
+// writesOnlyLocals reports whether every store in the call tree of fn goes through an address that
+// derives from a local allocation (of fn or of a callee), never from a global, from one of fn's own
+// pointer parameters or from a pointer loaded from memory.  Returns a description of the first
+// offending store otherwise.
+func (p *Program) writesOnlyLocals(fn *ssa.Function) string {
+	type ctxKey struct {
+		fn  *ssa.Function
+		cls string
+	}
+	done := map[ctxKey]bool{}
+	var problem string
+	var analyze func(f *ssa.Function, paramLocal []bool, freeLocal []bool)
+	analyze = func(f *ssa.Function, paramLocal []bool, freeLocal []bool) {
+		if problem != "" || len(f.Blocks) == 0 {
+			return
+		}
+		k := ctxKey{f, fmt.Sprint(paramLocal, freeLocal)}
+		if done[k] {
+			return
+		}
+		done[k] = true
+		var isLocal func(v ssa.Value, depth int) bool
+		isLocal = func(v ssa.Value, depth int) bool {
+			if depth > 50 {
+				return false
+			}
+			switch a := v.(type) {
+			case *ssa.Alloc:
+				return true
+			case *ssa.FieldAddr:
+				return isLocal(a.X, depth+1)
+			case *ssa.IndexAddr:
+				if _, isPtr := a.X.Type().Underlying().(*types.Pointer); isPtr {
+					return isLocal(a.X, depth+1)
+				}
+				return isLocal(a.X, depth+1) // slice of a local array
+			case *ssa.Slice:
+				return isLocal(a.X, depth+1)
+			case *ssa.Parameter:
+				for i, prm := range f.Params {
+					if prm == a {
+						return i < len(paramLocal) && paramLocal[i]
+					}
+				}
+			case *ssa.FreeVar:
+				for i, fv := range f.FreeVars {
+					if fv == a {
+						return i < len(freeLocal) && freeLocal[i]
+					}
+				}
+			case *ssa.Phi:
+				for _, e := range a.Edges {
+					if e != v && !isLocal(e, depth+1) {
+						return false
+					}
+				}
+				return true
+			}
+			return false
+		}
+		for _, b := range f.Blocks {
+			for _, in := range b.Instrs {
+				switch i := in.(type) {
+				case *ssa.Store:
+					if !isLocal(i.Addr, 0) {
+						problem = fmt.Sprintf("store %v in %s", i, f.String())
+						return
+					}
+				case *ssa.MapUpdate, *ssa.Send, *ssa.Go:
+					problem = fmt.Sprintf("%v in %s", i, f.String())
+					return
+				case ssa.CallInstruction:
+					cc := i.Common()
+					if bi, isB := cc.Value.(*ssa.Builtin); isB {
+						if (bi.Name() == "append" || bi.Name() == "copy") && !isLocal(cc.Args[0], 0) {
+							problem = fmt.Sprintf("%s into non-local memory in %s", bi.Name(), f.String())
+							return
+						}
+						continue
+					}
+					callee := cc.StaticCallee()
+					if callee == nil {
+						problem = "dynamic call in " + f.String()
+						return
+					}
+					if callee.Pkg != nil && (callee.Pkg.Pkg.Path() == "math" || callee.Pkg.Pkg.Path() == "math/bits") {
+						continue // pure numeric library functions
+					}
+					if len(callee.Blocks) == 0 {
+						problem = "call to " + callee.String() + " (no body) in " + f.String()
+						return
+					}
+					var pl []bool
+					for _, a := range cc.Args {
+						pl = append(pl, isLocal(a, 0))
+					}
+					var fl []bool
+					if mc, ok := cc.Value.(*ssa.MakeClosure); ok {
+						for _, bnd := range mc.Bindings {
+							fl = append(fl, isLocal(bnd, 0))
+						}
+					}
+					analyze(callee, pl, fl)
+				}
+			}
+		}
+	}
+	pl := make([]bool, len(fn.Params))
+	analyze(fn, pl, nil)
+	return problem
+}
